@@ -23,6 +23,7 @@ import (
 	"math"
 
 	"github.com/golang/geo/r2"
+	"github.com/golang/geo/r3"
 	"github.com/golang/geo/s1"
 	"github.com/golang/geo/s2"
 
@@ -33,6 +34,7 @@ func init() {
 	register("c12cells", opC12Cells)
 	register("c12segs", opC12Segs)
 	register("c12shrink", opC12Shrink)
+	register("c12ulp", opC12Ulp)
 }
 
 type c12Root struct {
@@ -742,4 +744,127 @@ func opC12Shrink(raw json.RawMessage, o *Out) {
 		}
 	}
 	o.sample = map[string]any{"op": "c12shrink", "root": c12Name(e.rootID), "cases": len(c.Shrinks)}
+}
+
+// ---------------------------------------------------------------- boundary-ulp class
+
+// c12FaceUVToXYZ is the definition of the six cube-face frames (s2 projection).
+func c12FaceUVToXYZ(face int, u, v float64) r3.Vector {
+	switch face {
+	case 0:
+		return r3.Vector{X: 1, Y: u, Z: v}
+	case 1:
+		return r3.Vector{X: -u, Y: 1, Z: v}
+	case 2:
+		return r3.Vector{X: -u, Y: -v, Z: 1}
+	case 3:
+		return r3.Vector{X: -1, Y: -v, Z: -u}
+	case 4:
+		return r3.Vector{X: v, Y: -1, Z: -u}
+	}
+	return r3.Vector{X: v, Y: u, Z: -1}
+}
+
+func c12Nudge(x float64, n int) float64 {
+	for ; n > 0; n-- {
+		x = math.Nextafter(x, math.Inf(1))
+	}
+	for ; n < 0; n++ {
+		x = math.Nextafter(x, math.Inf(-1))
+	}
+	return x
+}
+
+// opC12Ulp: points on the cell boundary st = k/2^level of a face and a few ulps beside it.  The
+// leaf cell is the one the library assigns to the point; the point must be contained in that leaf
+// and in each of its ancestors (ids by raw bit arithmetic).
+func opC12Ulp(raw json.RawMessage, o *Out) {
+	var c struct {
+		Face, Level, K, K2 int
+		Count              int
+		Axis, Other        int
+		Contained          []bool
+	}
+	if err := json.Unmarshal(raw, &c); err != nil {
+		panic(err)
+	}
+	o.nontrivial = true
+	n := 1 << uint(c.Level)
+	// the other coordinate: the middle of a leaf, a leaf boundary, or a leaf boundary nudged
+	ob := s2.CellFromCellID(emb.FromFaceIJ(c.Face, 30, c.K2, 0)).BoundUV().X
+	w := []float64{0.5 * (ob.Lo + ob.Hi), ob.Lo, c12Nudge(ob.Lo, 2*c.Other-3)}[c.Other]
+	failed := false
+	check := func(p s2.Point, k int, how string) {
+		o.Count("ulp_points")
+		leaf := s2.CellFromPoint(p).ID()
+		if emb.RawLevel(leaf) != 30 {
+			o.Fail("c12/leaf-of-point/not-a-leaf", "CellFromPoint(%v) has level %d", p, emb.RawLevel(leaf))
+			return
+		}
+		for l := 30; l >= 0; l-- {
+			if !c.Contained[l] {
+				continue
+			}
+			lsb := uint64(1) << uint(2*(30-l))
+			a := s2.CellID((uint64(leaf) & -lsb) | lsb)
+			cell := s2.CellFromCellID(a)
+			if !cell.ContainsPoint(p) {
+				o.Count("ulp_points_not_contained")
+				if failed {
+					return // one report per case
+				}
+				failed = true
+				u, v, _ := c12UV(int(uint64(leaf)>>61), p)
+				bd := cell.BoundUV()
+				o.Fail("c12/contains-own-leaf/boundary-ulp", "CellFromCellID(%d = %s, level %d).ContainsPoint(p) = false for p = (%.17g,%.17g,%.17g) bits (%#x,%#x,%#x) whose leaf CellFromPoint(p) = %d [%s]: u=%.17g v=%.17g, cell uv bound X[%.17g,%.17g] Y[%.17g,%.17g]; outside by du=%.3g dv=%.3g (margin dblEpsilon = 2.22e-16); boundary k=%d of level %d on face %d, %s",
+					uint64(a), c12Name(a), l, p.X, p.Y, p.Z, math.Float64bits(p.X), math.Float64bits(p.Y), math.Float64bits(p.Z), uint64(leaf), c12Name(leaf),
+					u, v, bd.X.Lo, bd.X.Hi, bd.Y.Lo, bd.Y.Hi, math.Max(bd.X.Lo-u, u-bd.X.Hi), math.Max(bd.Y.Lo-v, v-bd.Y.Hi), k, c.Level, c.Face, how)
+				return
+			}
+		}
+	}
+	for k := c.K; k < c.K+c.Count && k <= n; k++ {
+		o.Count("ulp_boundaries")
+		// the boundary coordinate, bit-identical to the bound the cells on both sides carry
+		var b float64
+		if k < n {
+			b = s2.CellFromCellID(emb.FromFaceIJ(c.Face, c.Level, k, 0)).BoundUV().X.Lo
+		} else {
+			b = s2.CellFromCellID(emb.FromFaceIJ(c.Face, c.Level, n-1, 0)).BoundUV().X.Hi
+		}
+		for du := -8; du <= 4; du++ {
+			u, v := c12Nudge(b, du), w
+			if c.Axis == 1 {
+				u, v = v, u
+			}
+			if math.Abs(u) > 1 || math.Abs(v) > 1 {
+				continue // outside the face
+			}
+			p := s2.Point{Vector: c12FaceUVToXYZ(c.Face, u, v).Normalize()}
+			check(p, k, fmt.Sprintf("u nudged by %d ulps, normalised", du))
+			check(s2.PointFromLatLng(s2.LatLngFromPoint(p)), k, fmt.Sprintf("u nudged by %d ulps, through LatLng", du))
+			for _, d := range [][3]int{{1, 0, 0}, {0, -1, 1}, {2, 2, -2}, {-3, 3, 0}, {-1, 0, 1}, {3, 0, -3}} {
+				q := s2.Point{Vector: r3.Vector{X: c12Nudge(p.X, d[0]), Y: c12Nudge(p.Y, d[1]), Z: c12Nudge(p.Z, d[2])}}
+				check(q, k, fmt.Sprintf("u nudged by %d ulps, normalised, xyz nudged by %v ulps", du, d))
+			}
+		}
+	}
+	o.sample = map[string]any{"op": "c12ulp", "face": c.Face, "level": c.Level, "k": c.K, "axis": c.Axis}
+}
+
+// c12UV is the definition of the (u,v) coordinates of a point on a face (for messages only).
+func c12UV(face int, p s2.Point) (float64, float64, bool) {
+	switch face {
+	case 0:
+		return p.Y / p.X, p.Z / p.X, true
+	case 1:
+		return -p.X / p.Y, p.Z / p.Y, true
+	case 2:
+		return -p.X / p.Z, -p.Y / p.Z, true
+	case 3:
+		return p.Z / p.X, p.Y / p.X, true
+	case 4:
+		return p.Z / p.Y, -p.X / p.Y, true
+	}
+	return -p.Y / p.Z, -p.X / p.Z, true
 }
